@@ -20,6 +20,7 @@ PROFILES_QUICK = [
     {"cluster_size": 1 << 20, "full": False},
     {"cluster_size": 65536, "full": True, "sel": 3},
     {"cluster_size": 126 * 512, "full": True, "sel": 3},   # 63-sector tracks x 2: not a power of two
+    {"cluster_size": 4096, "full": True, "sel": 3, "v1_unused": 0x1FF, "when": lambda img: img["ver"] == 1},  # garbage in the unused dword after the v1 size
 ]
 PROFILES_THOROUGH = PROFILES_QUICK + [
     {"cluster_size": 8 << 20, "full": False, "sel": 6},
@@ -44,7 +45,8 @@ def build(img, prof, P=None, size_bytes=None):
     if img["kind"] == "plain":
         return None
     # header + BAT must fit below the first possible position
-    vf, info = enc_hds.build(img, cluster_size=cs, P=P if P is not None else img["n"] + 1, size_bytes=size_bytes)
+    vf, info = enc_hds.build(img, cluster_size=cs, P=P if P is not None else img["n"] + 1, size_bytes=size_bytes,
+                             hdr_kw={"v1_unused": prof.get("v1_unused", 0)})
     parent = None
     if img["parent"]:
         psize = info["size"]
